@@ -900,7 +900,7 @@ func buildAnyLocalCRLs(
 		// these certificates to an issuer. Some certificates will not be
 		// assignable (if they were issued by a since-deleted issuer), so we need
 		// a separate pool for those.
-		unassignedCerts, revokedCertsMap, err = getLocalRevokedCertEntries(sc, issuerIDCertMap, isDelta)
+		unassignedCerts, revokedCertsMap, err = getLocalRevokedCertEntries(sc, issuerIDCertMap, isDelta, issuerIDEntryMap)
 		if err != nil {
 			return nil, nil, fmt.Errorf("error building CRLs: unable to get revoked certificate entries: %w", err)
 		}
@@ -1184,7 +1184,7 @@ func associateRevokedCertWithIsssuer(revInfo *revocationInfo, revokedCert *x509.
 	return false
 }
 
-func getLocalRevokedCertEntries(sc *storageContext, issuerIDCertMap map[issuerID]*x509.Certificate, isDelta bool) ([]pkix.RevokedCertificate, map[issuerID][]pkix.RevokedCertificate, error) {
+func getLocalRevokedCertEntries(sc *storageContext, issuerIDCertMap map[issuerID]*x509.Certificate, isDelta bool, issuerIDEntryMap map[issuerID]*issuerEntry) ([]pkix.RevokedCertificate, map[issuerID][]pkix.RevokedCertificate, error) {
 	var unassignedCerts []pkix.RevokedCertificate
 	revokedCertsMap := make(map[issuerID][]pkix.RevokedCertificate)
 
@@ -1198,9 +1198,18 @@ func getLocalRevokedCertEntries(sc *storageContext, issuerIDCertMap map[issuerID
 		return nil, nil, errutil.InternalError{Err: fmt.Sprintf("error fetching list of revoked certs: %s", err)}
 	}
 
-	// Build a mapping of issuer serial -> certificate.
+	// Build a mapping of issuer serial -> certificate, for the issuers whose
+	// revocation is placed on the CRLs by augmentWithRevokedIssuers. That
+	// covers only issuers revoked through the issuer revocation API; the
+	// revocation entry of any other issuer certificate (say, an intermediate
+	// revoked as a leaf of its parent before it was imported here) has to be
+	// handled like every other entry, or it would end up on no CRL at all.
 	issuerSerialCertMap := make(map[string][]*x509.Certificate, len(issuerIDCertMap))
-	for _, cert := range issuerIDCertMap {
+	for id, cert := range issuerIDCertMap {
+		if entry, ok := issuerIDEntryMap[id]; !ok || !entry.Revoked {
+			continue
+		}
+
 		serialStr := serialFromCert(cert)
 		issuerSerialCertMap[serialStr] = append(issuerSerialCertMap[serialStr], cert)
 	}
